@@ -436,4 +436,265 @@ Section Passes.
     assert (H := PresF_fold (fun m r => dce_graph [] u ops fuel r m) (func_refs m2) (fun m a HWm HNm => dce_graph_pres u ops fuel a m HWm HNm) m2 HW2 HN2).
     exact (proj1 H).
   Qed.
+
+  (* ------------------------------------------------------------ generic packaging with L = everything *)
+  Lemma rw_pres_gen tr sg p inits m :
+    WF m -> NoOpFunc m -> tr_ok tr ->
+    NoDup (map fst (all_inits (rw tr sg p inits m))) ->
+    (forall v, In v (map fst (all_inits (rw tr sg p inits m))) -> ~ In v (all_outs m)) ->
+    (forall v, formal_of m v -> sg v = v) ->
+    (forall v t, alookup (all_inits m) v = Some t ->
+                 alookup (all_inits (rw tr sg p inits m)) (sg v) = Some t /\ (sg v = v \/ ~ formal_of m (sg v))) ->
+    (forall v n i, alookup (all_inits m) v = None -> find_prod (all_nodes m) v = Some (n, i) ->
+      (p n = true /\ sg v = v /\ alookup (all_inits (rw tr sg p inits m)) v = None)
+      \/ (exists nk, find_prod (all_nodes m) (sg v) = Some (nk, i) /\ p nk = true /\ alookup (all_inits (rw tr sg p inits m)) (sg v) = None
+                     /\ n_op nk = n_op n /\ n_attrs nk = n_attrs n /\ length (n_outs nk) = length (n_outs n)
+                     /\ map (option_map sg) (n_ins nk) = map (option_map sg) (n_ins n))
+      \/ (i = O /\ is_identity_op (n_op n) = true /\ length (n_outs n) = 1%nat /\ find_func (m_funcs m) (n_op n) = None
+          /\ exists x, n_ins n = [Some x] /\ sg v = sg x)
+      \/ (i = O /\ n_ins n = [] /\ length (n_outs n) = 1%nat /\ find_func (m_funcs m) (n_op n) = None
+          /\ exists t, (forall aenv subs, interp (n_op n) (resolve aenv (n_attrs n)) subs [] 1%nat = Some [tensor_val t])
+                       /\ alookup (all_inits (rw tr sg p inits m)) (sg v) = Some t /\ ~ formal_of m (sg v))) ->
+    Pres m (rw tr sg p inits m).
+  Proof.
+    intros HW HN Htr Hnd Hnp Hfix Hinit Hnode. constructor.
+    - apply WF_rw; auto.
+    - apply NoOpFunc_rw. exact HN.
+    - apply all_formals_rw.
+    - intros env r He Hc.
+      eapply (step_computes T absent tensor_val interp interp_mono interp_identity interp_trailing_absent
+                            tr sg p inits m (fun _ => True)); eauto.
+      intros g _. apply Forall_forall. auto.
+    - reflexivity.
+    - unfold rw, mk2. simpl. apply map_length.
+  Qed.
+
+  (* ------------------------------------------------------------ DeduplicateInitializersPass *)
+  Lemma Zlist_eqb_eq a b : list_eqb Z.eqb a b = true -> a = b.
+  Proof. apply list_eqb_eq. intros; apply Z.eqb_eq. Qed.
+  Lemma tensor_eqb_eq a b : tensor_eqb a b = true -> a = b.
+  Proof.
+    unfold tensor_eqb. intros H. apply andb_prop in H. destruct H as [H H3]. apply andb_prop in H. destruct H as [H1 H2].
+    apply Z.eqb_eq in H1. apply Zlist_eqb_eq in H2. apply Zlist_eqb_eq in H3. destruct a, b. simpl in *. congruence.
+  Qed.
+
+  Lemma map_graphs_ext_in F G m : (forall g, In g (graphs_of m) -> F g = G g) -> map_graphs F m = map_graphs G m.
+  Proof.
+    intros H. unfold map_graphs. f_equal.
+    - apply H. left. reflexivity.
+    - apply map_ext_in. intros [k g] Hin. simpl. rewrite H; [reflexivity|]. right. apply in_app_iff. left. apply in_map_iff. exists (k, g). auto.
+    - apply map_ext_in. intros f Hin. rewrite H; [reflexivity|]. right. apply in_app_iff. right. apply in_map_iff. exists f. auto.
+  Qed.
+
+  Lemma alookup_NoDup_In {A} (l : list (N * A)) k a : NoDup (map fst l) -> In (k, a) l -> alookup l k = Some a.
+  Proof.
+    induction l as [|[k' a'] l IH]; simpl; intros Hnd Hin; [contradiction|]. inversion Hnd; subst.
+    destruct Hin as [E|Hin].
+    - injection E as -> ->. rewrite N.eqb_refl. reflexivity.
+    - destruct (N.eqb k' k) eqn:Ek; [|apply IH; assumption]. apply N.eqb_eq in Ek. subst k'. exfalso. apply H1.
+      apply in_map_iff. exists (k, a). auto.
+  Qed.
+  Lemma is_graph_input_false m v : is_graph_input m v = false -> ~ formal_of m v.
+  Proof.
+    unfold is_graph_input, formal_of, all_formals. intros H Hin. apply in_flat_map in Hin. destruct Hin as [g [Hg Hv]].
+    assert (existsb (fun g => memN v (g_ins g)) (graphs_of m) = true) by (apply existsb_exists; exists g; split; [exact Hg | apply memN_In; exact Hv]).
+    congruence.
+  Qed.
+  Lemma NoDup_map_fst_filter {A} (q : N * A -> bool) (l : list (N * A)) : NoDup (map fst l) -> NoDup (map fst (filter q l)).
+  Proof. intros H. rewrite <- (app_nil_r (filter q l)). apply NoDup_map_fst_filter_app. rewrite app_nil_r. exact H. Qed.
+
+  Definition drop_init (v : vid) (g : graph) : list (vid * tensor) := filter (fun vt => negb (N.eqb (fst vt) v)) (g_inits g).
+
+  Lemma dedup_step m v w t : WF m -> NoOpFunc m -> In (v, t) (all_inits m) -> In (w, t) (all_inits m) -> v <> w ->
+    is_graph_input m v = false -> is_graph_output m v = false -> is_graph_input m w = false ->
+    Pres m (map_graphs (fun g => set_inits g (drop_init v g)) (replace_uses false v w m)).
+  Proof.
+    intros HW HN Hv Hw Hne Hvi Hvo Hwi.
+    assert (Eq : map_graphs (fun g => set_inits g (drop_init v g)) (replace_uses false v w m)
+                 = rw (fun n => n) (sub1 v w) (fun _ => true) (fun _ => drop_init v) m).
+    { rewrite rw_map_graphs. unfold replace_uses. rewrite map_graphs_comp. apply map_graphs_ext_in. intros g Hg.
+      unfold rw_graph, subst_graph, set_inits, drop_init. simpl. rewrite filter_true.
+      rewrite (sub1_notin v w (g_outs g)); [reflexivity|]. exact (is_graph_output_false m v Hvo g Hg). }
+    rewrite Eq.
+    assert (Hall' : all_inits (rw (fun n => n) (sub1 v w) (fun _ => true) (fun _ => drop_init v) m)
+                    = filter (fun vt => negb (N.eqb (fst vt) v)) (all_inits m)).
+    { unfold all_inits, rw. rewrite (flat_map_mk2 g_inits (drop_init v)); try reflexivity. unfold drop_init. rewrite filter_flat_map. reflexivity. }
+    pose proof (wf_inits_nodup m HW) as Hnd.
+    assert (Ev : alookup (all_inits m) v = Some t) by (apply alookup_NoDup_In; assumption).
+    assert (Ew : alookup (all_inits m) w = Some t) by (apply alookup_NoDup_In; assumption).
+    assert (Hvnp : ~ In v (all_outs m)). { apply (wf_init_prod m HW). apply in_map_iff. exists (v, t). auto. }
+    apply rw_pres_gen; auto using tr_ok_id.
+    - rewrite Hall'. apply NoDup_map_fst_filter. exact Hnd.
+    - intros u Hu. apply (wf_init_prod m HW). rewrite Hall' in Hu. apply in_map_iff in Hu. destruct Hu as [vt [<- Hvt]].
+      apply filter_In in Hvt. apply in_map. tauto.
+    - intros u Hf. unfold sub1. destruct (N.eqb u v) eqn:E; [|reflexivity]. apply N.eqb_eq in E. subst u.
+      exfalso. exact (is_graph_input_false m v Hvi Hf).
+    - intros u t0 Eu. rewrite Hall'. unfold sub1. destruct (N.eqb u v) eqn:E.
+      + apply N.eqb_eq in E. subst u. assert (t0 = t) by congruence. subst t0. split.
+        * apply alookup_filter_keep; [exact Ew|]. intros a'. simpl. apply negb_true_iff. apply N.eqb_neq. auto.
+        * right. apply is_graph_input_false. exact Hwi.
+      + split; [|left; reflexivity]. apply alookup_filter_keep; [exact Eu|]. intros a'. simpl. rewrite E. reflexivity.
+    - intros u n i Eu Ep. left. split; [reflexivity|].
+      assert (u <> v). { intros ->. apply Hvnp. destruct (find_prod_In _ _ _ _ Ep) as [Hin Hidx]. unfold all_outs. apply in_flat_map.
+                         exists n. split; [exact Hin | eapply index_of_In; eauto]. }
+      split; [unfold sub1; destruct (N.eqb u v) eqn:E; [apply N.eqb_eq in E; congruence | reflexivity]|].
+      rewrite Hall'. apply alookup_filter_none. exact Eu.
+  Qed.
+
+  Lemma dedup_step_inits m v w : is_graph_output m v = false ->
+    all_inits (map_graphs (fun g => set_inits g (drop_init v g)) (replace_uses false v w m))
+    = filter (fun vt => negb (N.eqb (fst vt) v)) (all_inits m).
+  Proof.
+    intros Hvo. unfold all_inits. rewrite graphs_of_map_graphs, flat_map_map. unfold replace_uses.
+    rewrite graphs_of_map_graphs, flat_map_map. rewrite filter_flat_map. apply flat_map_ext'. intros g _. reflexivity.
+  Qed.
+
+  Lemma is_graph_input_formal m v : is_graph_input m v = true <-> formal_of m v.
+  Proof.
+    unfold is_graph_input, formal_of, all_formals. rewrite existsb_exists, in_flat_map.
+    split; intros [g [Hg Hv]]; exists g; (split; [exact Hg|]); apply memN_In; exact Hv.
+  Qed.
+  Lemma is_graph_input_pres m m' v : all_formals m' = all_formals m -> is_graph_input m' v = is_graph_input m v.
+  Proof.
+    intros E. destruct (is_graph_input m v) eqn:A.
+    - apply is_graph_input_formal. unfold formal_of. rewrite E. apply is_graph_input_formal. exact A.
+    - destruct (is_graph_input m' v) eqn:B; [|reflexivity]. apply is_graph_input_formal in B. unfold formal_of in B. rewrite E in B.
+      apply is_graph_input_formal in B. congruence.
+  Qed.
+
+  Lemma get_gref_In m r g : get_gref m r = Some g -> In g (graphs_of m).
+  Proof.
+    destruct r as [|k|i]; simpl; intros E.
+    - injection E as <-. left. reflexivity.
+    - right. apply in_app_iff. left. apply alookup_In in E. apply in_map_iff. exists (k, g). auto.
+    - right. apply in_app_iff. right. destruct (nth_error (m_funcs m) i) as [f|] eqn:En; [|discriminate]. injection E as <-.
+      apply in_map. eapply nth_error_In; eauto.
+  Qed.
+  Lemma NoDup_map_flat_map_elem {A B C} (h : B -> C) (f : A -> list B) l x : NoDup (map h (flat_map f l)) -> In x l -> NoDup (map h (f x)).
+  Proof.
+    induction l as [|a l IH]; simpl; intros H Hin; [contradiction|]. rewrite map_app in H.
+    destruct Hin as [<-|Hin].
+    - clear IH. induction (map h (f a)) as [|c r IHr]; [constructor|]. simpl in H. inversion H; subst. constructor; [|auto].
+      intros Hc. apply H2. apply in_app_iff. left. exact Hc.
+    - apply IH; [|exact Hin]. eapply NoDup_app_remove_l. exact H.
+  Qed.
+
+  Lemma dedup_loop_pres sl r : forall inits seen m, WF m -> NoOpFunc m ->
+    NoDup (map fst inits) -> (forall vt, In vt inits -> In vt (all_inits m)) ->
+    (forall wt, In wt seen -> In wt (all_inits m) /\ is_graph_input m (fst wt) = false /\ ~ In (fst wt) (map fst inits)) ->
+    Pres m (dedup_graph_loop sl r inits seen m).
+  Proof.
+    induction inits as [|[v t] rest IH]; intros seen m HW HN Hnd Hin Hseen; simpl; [apply Pres_refl; assumption|].
+    inversion Hnd; subst.
+    assert (Hrest : forall vt, In vt rest -> In vt (all_inits m)) by (intros; apply Hin; right; assumption).
+    destruct (is_graph_input m v || is_graph_output m v || Z.ltb sl (tensor_size t)) eqn:Eskip.
+    { apply IH; auto. intros wt Hwt. destruct (Hseen wt Hwt) as [A [B C]]. repeat split; auto. simpl in C. tauto. }
+    apply orb_false_iff in Eskip. destruct Eskip as [Eskip _]. apply orb_false_iff in Eskip. destruct Eskip as [Hvi Hvo].
+    destruct (find (fun wt => tensor_eqb (snd wt) t) seen) as [[w t']|] eqn:Ef.
+    - apply find_some in Ef. destruct Ef as [Hws Heq]. simpl in Heq. apply tensor_eqb_eq in Heq. subst t'.
+      destruct (Hseen _ Hws) as [Hwin [Hwi Hwk]]. simpl in Hwi, Hwk.
+      assert (Hne : v <> w) by (intros ->; apply Hwk; left; reflexivity).
+      assert (P : Pres m (map_graphs (fun g => set_inits g (drop_init v g)) (replace_uses false v w m))).
+      { apply (dedup_step m v w t); auto. apply Hin. left. reflexivity. }
+      eapply Pres_trans; [exact P|]. destruct P as [HW' HN' Hf' _ _ _].
+      assert (Hdi := dedup_step_inits m v w Hvo). unfold drop_init in Hdi.
+      apply IH; auto.
+      + intros vt Hvt. rewrite Hdi. apply filter_In. split; [apply Hrest; exact Hvt|].
+        apply negb_true_iff. apply N.eqb_neq. intros E. apply H1. rewrite <- E. apply in_map. exact Hvt.
+      + intros wt Hwt. destruct (Hseen wt Hwt) as [A [B C]]. simpl in C. repeat split.
+        * rewrite Hdi. apply filter_In. split; [exact A|]. apply negb_true_iff. apply N.eqb_neq. intros E. apply C. left. auto.
+        * transitivity (is_graph_input m (fst wt)); [apply is_graph_input_pres; exact Hf' | exact B].
+        * tauto.
+    - apply IH; auto. intros wt Hwt. apply in_app_iff in Hwt. destruct Hwt as [Hwt|[<-|[]]].
+      + destruct (Hseen wt Hwt) as [A [B C]]. simpl in C. repeat split; auto.
+      + simpl. repeat split; auto. apply Hin. left. reflexivity.
+  Qed.
+
+  Theorem dedup_inits_pres sl order m : WF m -> NoOpFunc m -> Pres m (dedup_inits sl order m).
+  Proof.
+    intros HW HN. unfold dedup_inits. apply (Pres_fold (fun m r => match get_gref m r with Some g => dedup_graph_loop sl r (g_inits g) [] m | None => m end)); auto.
+    intros m0 r HW0 HN0. destruct (get_gref m0 r) as [g|] eqn:Eg; [|apply Pres_refl; assumption].
+    apply get_gref_In in Eg. apply dedup_loop_pres; auto.
+    - apply (NoDup_map_flat_map_elem fst g_inits (graphs_of m0) g); [apply (wf_inits_nodup m0 HW0) | exact Eg].
+    - intros vt Hvt. unfold all_inits. apply in_flat_map. eauto.
+    - intros wt [].
+  Qed.
+
+  (* ------------------------------------------------------------ sequences of the proved passes *)
+  Inductive pass : Type :=
+  | PIdent (fuel : nat)
+  | PDedup (size_limit : Z) (order : list gref)
+  | PDce (unnamed : list vid) (opset_graphs : list gref) (fuel : nat).
+  Definition apply_pass (m : model) (p : pass) : model :=
+    match p with
+    | PIdent fuel => identity_elim fuel m
+    | PDedup sl order => dedup_inits sl order m
+    | PDce u ops fuel => dce [] u ops fuel m
+    end.
+  Definition frame_ok (m : model) : Prop := forall o, In o (snd (frame m)) -> ~ In o (map fst (fst (frame m))).
+  (* side condition of DCE at the point where it runs *)
+  Fixpoint seq_ok (ps : list pass) (m : model) : Prop :=
+    match ps with
+    | [] => True
+    | p :: r => (match p with PDce _ _ _ => frame_ok m | _ => True end) /\ seq_ok r (apply_pass m p)
+    end.
+  Lemma apply_pass_pres m p : WF m -> NoOpFunc m -> (match p with PDce _ _ _ => frame_ok m | _ => True end) -> Pres m (apply_pass m p).
+  Proof.
+    intros HW HN Hc. destruct p; simpl.
+    - apply identity_elim_pres; assumption.
+    - apply dedup_inits_pres; assumption.
+    - apply dce_pres; [assumption | assumption | exact Hc].
+  Qed.
+  Theorem sequence_pres : forall ps m, WF m -> NoOpFunc m -> seq_ok ps m -> Pres m (fold_left apply_pass ps m).
+  Proof.
+    induction ps as [|p ps IH]; intros m HW HN Hok; simpl; [apply Pres_refl; assumption|].
+    destruct Hok as [Hc Hr]. pose proof (apply_pass_pres m p HW HN Hc) as P.
+    eapply Pres_trans; [exact P|]. destruct P. apply IH; assumption.
+  Qed.
 End Passes.
+
+(* ---------------------------------------------------------------- signature / validity: independent of the operator semantics *)
+Definition triv_interp : opid -> list (str * attr) -> list (subfn unit) -> list unit -> nat -> option (list unit) :=
+  fun _ _ _ _ k => Some (repeat tt k).
+Lemma triv_mono : forall op attrs subs subs' ins k r,
+    Forall2 (sub_le unit) subs subs' -> triv_interp op attrs subs ins k = Some r -> triv_interp op attrs subs' ins k = Some r.
+Proof. intros. assumption. Qed.
+Lemma triv_identity : forall op attrs subs x, is_identity_op op = true -> triv_interp op attrs subs [x] 1%nat = Some [x].
+Proof. intros op attrs subs []. reflexivity. Qed.
+Lemma triv_trailing : forall op attrs subs ins k, triv_interp op attrs subs (ins ++ [tt]) k = triv_interp op attrs subs ins k.
+Proof. reflexivity. Qed.
+
+Definition SigKept (m m' : model) : Prop :=
+  g_ins (m_main m') = g_ins (m_main m) /\ length (g_outs (m_main m')) = length (g_outs (m_main m))
+  /\ all_formals m' = all_formals m /\ WF m' /\ NoOpFunc m'.
+Lemma Pres_sig m m' : Pres unit tt (fun _ => tt) triv_interp m m' -> SigKept m m'.
+Proof. intros [a b c d e f]. unfold SigKept. split; [exact e | split; [exact f | split; [exact c | split; [exact a | exact b]]]]. Qed.
+
+Theorem sequence_sig ps m : WF m -> NoOpFunc m -> seq_ok ps m -> SigKept m (fold_left apply_pass ps m).
+Proof. intros. apply Pres_sig. apply (sequence_pres unit tt (fun _ => tt) triv_interp triv_mono triv_identity triv_trailing); assumption. Qed.
+
+(* ---------------------------------------------------------------- refutation witnesses (findings) *)
+Definition wit_ident : model := mkModel (mkGraph [1; 2] [] [mkNode ([], [78;101;103], []) [] [Some 1] [3]; mkNode ([], [73;102], []) [([101;108;115;101;95;98;114;97;110;99;104], AGraph 1); ([116;104;101;110;95;98;114;97;110;99;104], AGraph 2)] [Some 2] [4]; mkNode ([], [65;98;115], []) [] [Some 3] [5]] [4; 5]) [(1, mkGraph [] [] [mkNode ([], [73;100;101;110;116;105;116;121], []) [] [Some 1] [6]] [6]); (2, mkGraph [] [] [mkNode ([], [73;100;101;110;116;105;116;121], []) [] [Some 3] [7]] [7])] [].
+Lemma ident_valid_refuted : wfb wit_ident = true /\ outputs_localb wit_ident = true /\ outputs_localb (identity_elim 12 wit_ident) = false.
+Proof. vm_compute. repeat split. Qed.
+
+Definition wit_dce : model := mkModel (mkGraph [1; 2; 3; 4; 5] [] [mkNode ([], [65;98;115], []) [] [Some 5] [6]; mkNode ([], STR_BatchNormalization, []) [(STR_training_mode, AData 2 [1%Z])] [Some 1; Some 2; Some 3; Some 4; Some 6] [7; 8; 9]] [7]) [] [].
+Definition wit_dce_schema : schema := [([65;98;115], [false]); (STR_BatchNormalization, [false; true; true])].
+(* the live BatchNormalization node keeps its three outputs but loses training_mode *)
+Lemma dce_batchnorm_refuted :
+  option_map n_attrs (get_node wit_dce 7) = Some [(STR_training_mode, AData 2 [1%Z])]
+  /\ option_map n_attrs (get_node (dce wit_dce_schema [] [GMain] 12 wit_dce) 7) = Some []
+  /\ g_outs (m_main (dce wit_dce_schema [] [GMain] 12 wit_dce)) = [7].
+Proof. vm_compute. repeat split. Qed.
+
+(* the CSE key identifies attribute values that differ: +0.0 / -0.0, and NUL-padded string tensors *)
+Lemma cse_key_refuted :
+  (cse_attr_eqb ([97], AData TY_FLOAT [0%Z]) ([97], AData TY_FLOAT [9223372036854775808%Z]) = true
+   /\ attr_eqb (AData TY_FLOAT [0%Z]) (AData TY_FLOAT [9223372036854775808%Z]) = false)
+  /\ (cse_attr_eqb ([97], AData TY_TENSOR [8; 1; 2; 1; 97; 2; 98; 98]%Z) ([97], AData TY_TENSOR [8; 1; 2; 2; 97; 0; 2; 98; 98]%Z) = true
+      /\ attr_eqb (AData TY_TENSOR [8; 1; 2; 1; 97; 2; 98; 98]%Z) (AData TY_TENSOR [8; 1; 2; 2; 97; 0; 2; 98; 98]%Z) = false).
+Proof. vm_compute. repeat split. Qed.
+(* ... while the attribute TYPE is part of the key (the defect fixed by 187cb2f): INT 1 vs FLOAT 1.0 *)
+Lemma cse_key_type_sensitive :
+  cse_attr_eqb ([97], AData TY_INT [1%Z]) ([97], AData TY_FLOAT [4607182418800017408%Z]) = false.
+Proof. reflexivity. Qed.
